@@ -19,7 +19,7 @@ import re
 
 from harness import core
 
-POOL = " !\"#$%&'()*+,-./0123456789:;<=>?@[\\]^_`{|}~\t\n\u00a0«»…–—’œŒçÇ"
+POOL = " !\"#$%&'()*+,-./0123456789:;<=>?@[\\]^_`{|}~\t\n\u00a0«»…–—’œŒæÆçÇ"
 
 
 def _err(msg):
